@@ -322,7 +322,7 @@ func runC10(seed uint64, n int, outDir string, replay string) {
 			if err != nil {
 				panic(err)
 			}
-			defer wx.node.sl.Stop()
+			defer safeStop(wx.node)
 			wx.hunt = rc.Chance(30) || c == 0 // case 0 replays the known finding: a spent-and-trimmed output on a rolled-back block
 			X := wx.node
 			digestAns := func(wf string) string {
@@ -380,7 +380,7 @@ func runC10(seed uint64, n int, outDir string, replay string) {
 			if err != nil {
 				panic(err)
 			}
-			defer Y.sl.Stop()
+			defer safeStop(Y)
 			for _, b := range prefix {
 				if err := Y.appendBlock(b.st.blk, b.st.inbound); err != nil {
 					o.Violate("c06-replica-rejects-block", fmt.Sprintf("prefix block rejected by the second node: %v", err))
